@@ -1,5 +1,5 @@
 (* Chk_C18.v — case type and checker for C18 (interpreter-global state restored). *)
-From ZT Require Import Base Restore RestorePhases.
+From ZT Require Import Base Restore RestorePhases RestoreTagged.
 
 Record case := {
   feats : list (list (nat * nat));   (* active features in set-up order: (field, installed value code) *)
@@ -22,6 +22,7 @@ Definition check (c : case) : nat :=
                   (with_features (map (fun ws => {| f_writes := ws |}) (feats c)) (fun g => g) (g_before c)) (g_after c)
              && match g_probe c with Some p => same_on (probe_fields c) (during3 (feats3 c) (g_before c)) p | None => true end
              && same_on (all_fields c) (run3 (feats3 c) (fun g => g) (g_before c)) (g_after c)
+             && same_on (all_fields c) (run4 (feats3 c) (fun g => g) (g_before c)) (g_after c)
              && list_eqb (list_eqb (fun a b => Nat.eqb (fst a) (fst b) && Nat.eqb (snd a) (snd b))) (feats c) (map wpairs (feats3 c)))) 1
   + bit (negb (disjoint_writes (feats3 c))) 4
   + bit (negb (same_on (all_fields c) (g_before c) (g_after c))) 2.
